@@ -77,6 +77,21 @@ CHECKS = {
   "For all 30 recipient lists of length <=4 over two addresses, every sequence of SetStatus calls within the multiplicities, three timings, both return values, five panic/misuse kinds, three transfer forms, both backend kinds, refused recipients in between and a second transaction with a different recipient list on the same connection, the real LMTP server's final replies are compared with the reference attribution (count, order, recipient named, code and unique token). A deadlock is reported from state (backend returned, client idle, server neither reading nor writing, corroborated by the goroutine table), never from elapsed time alone.",
   "Known finding C13:bdat-last-early-failure-single-reply; statuses set after LMTPData returned violate the backend contract and their effect is not judged.",
   "DESIGN.md section 5 C13"),
+ "C16": ("exploration",
+  "runtime monitoring: real client against real server; backend octets vs DotWriter reference, envelope equality, Close verdicts, wire tap around the second Close",
+  "Bodies exhaustive over the tokens {'.', LF, CRLF, x} up to a bound plus seeded 8-bit bodies are written through Client.Data/LMTPData in several partitions of Write calls; the recording backend's octets are compared with the reference normalisation, the envelope with what was given, Close with the server's scripted verdict (accept / reject with token), and a second Close must fail locally without a single octet appearing on the client->server tap.",
+  "Empty body not judged; CR occurs only inside CRLF as the statement requires.",
+  "DESIGN.md section 5 C16"),
+ "C17": ("exploration",
+  "runtime monitoring: product of error shapes through four callbacks, observed on the wire (strict parser) and through the real client's returned SMTPError",
+  "Seven reply codes x three enhanced-code modes x fourteen message shapes (incl. text starting with the very code that is set, multi-line, empty inner line) x four callbacks x SMTP/LMTP x DATA/BDAT plus plain errors: the reply on the wire must carry the same code, the same (or derived X.0.0, or no) enhanced code on the final line and consistently on the others, and the same text lines; the go-smtp client must return an equal *SMTPError. The product is enumerated completely.",
+  "NoEnhancedCode combined with text that looks like an enhanced code is not judged on the client side.",
+  "DESIGN.md section 5 C17"),
+ "C18": ("exploration",
+  "runtime monitoring: real LMTP client against real per-recipient LMTP server (and a scripted peer for 251 replies); callback sequences vs scripted verdicts; transport-state stall detection",
+  "All transactions of 1..3 recipients (refused at RCPT / ok / refused after DATA) are combined into sequences of 1..3 transactions per connection, with LMTPData+callback, LMTPData(nil) and Data(), with and without Reset in between; the callback sequence of every transaction must equal the accepted recipients with their own unique-token statuses, Close must return (a client parked in Close while the server waits for a command is reported from the transport state), a refusal without callback must come back from Close, and the connection must still be in step afterwards (NOOP, QUIT).",
+  "Exhaustive for single transactions; pairs and triples are sampled in the quick tier.",
+  "DESIGN.md section 5 C18"),
 }
 
 NOT_APPLICABLE = {
